@@ -237,6 +237,13 @@ def _checkpoint(check: Check, aa: AtomicAnalysis):
         isinstance(s, ast.Call) and fl.ext(s.func) == 'builtins.max' for s in srcs)
     check.ob('R-PAIR', load, txt(parg), picks_last,
              'the loaded path must be the last element of the sorted listing', node=c)
+    # ... and that listing is the pattern-filtered one: a raw directory glob also contains temporary files of an interrupted save
+    lists = [s.value if isinstance(s, ast.Subscript) else (s.args[0] if isinstance(s, ast.Call) and s.args else None) for s in srcs]
+    from_helper = bool(lists) and all(l is not None and any(isinstance(v, ast.Call) and fl.callee(v).kind == 'func' and fl.callee(v).func is getp
+                                                           for v in fl.expand(l)) for l in lists)
+    check.ob('R-PAIR.listing', load, txt(parg), from_helper,
+             f'the candidates come from {getp.name}() (names matching the checkpoint pattern only); an unfiltered listing lets a leftover '
+             '`.tmp` file of a crashed save be picked as the newest checkpoint', node=c)
     # round number derives from the same variable
     rn_ok = False
     for _, v in fl.returns():
@@ -494,6 +501,19 @@ def _experiment(check: Check):
         finals.append(c)
   check.ob('R-ORDER', fi, 'final evaluation round number', bool(finals),
            'final evaluation functions receive the last round number', nontrivial=False)
+  # every normal return comes after the final evaluation: a re-run that finds all rounds done must still (re)write its output
+  if finals:
+    anchors = []
+    for c in finals:
+      n = ff.node_of(c)
+      lps = [l for l in defassign._loops_of(ff, c)]
+      hd = next((x for x in ff.cfg.nodes if x.kind in ('for', 'while') and lps and x.ast is lps[-1]), None)
+      anchors.append(hd if hd is not None else n)
+    for rn, rv in ff.returns():
+      ok_r = any(a is not None and ff.cfg.dominates(a, rn) for a in anchors)
+      check.ob('R-ORDER.final-eval', fi, f'return at line {rn.lineno}', ok_r,
+               'the function returns only after the final evaluation section: an early return (e.g. "nothing left to train") skips writing '
+               'the final-evaluation files that an uninterrupted run writes', node=rn.ast)
 
 
 def _from_call(ff: FuncFlow, e: ast.AST, call: ast.Call) -> bool:
